@@ -51,7 +51,7 @@ for name, p in X.PATS.items():
             else: exp = '[' + '|'.join(spans(p, m) for m in p.finditer(subj)) + ']'
             cases.append((name, fn, s, exp))
 inp = ''.join('%s\t%s\t%s\n' % (n, f, ','.join(str(ord(c)) for c in s)) for n, f, s, e in cases)
-r = subprocess.run(['lean', '--run', 'Main.lean'], input=inp, capture_output=True, text=True, env=dict(os.environ, LEAN_PATH='.'))
+r = subprocess.run([os.environ.get('DRIVER')] if os.environ.get('DRIVER') else ['lean', '--run', 'Main.lean'], input=inp, capture_output=True, text=True, env=dict(os.environ, LEAN_PATH='.'))
 outs = [l[2:] for l in r.stdout.splitlines() if l.startswith('R\t')]
 print('cases', len(cases), 'outputs', len(outs), r.stderr[:500])
 bad = 0
